@@ -7,7 +7,7 @@ delivers or withholds input) is the list of actions.  An action that is not enab
 no-op (`step` returns the state unchanged), so every list of actions is an execution.
 
 Distributor loop (fixed code): `for ctx.Err() == nil { select { <-ctx.Done | msg := <-in: count; select { buf <- msg | default: drop } } }`
-Worker loop: `for { select { <-ctx.Done: return | msg := <-buf: ingest msg } }` — with both ready Go may take either.
+Worker loop: `for { select { <-ctx.Done: return | msg := <-buf: parse msg (on error: log, continue); ingest } }` — with both ready Go may take either.
 -/
 namespace CJ.Pipeline
 
@@ -27,6 +27,7 @@ structure St where
   forwarded : Nat := 0
   dropped : Nat := 0
   processed : Nat := 0
+  rejected : Nat := 0         -- messages a worker could not parse (logged, worker goes on)
 deriving Repr
 
 inductive Act
@@ -40,6 +41,9 @@ inductive Act
   | exit (i : Nat)
   /-- worker `i` finishes ingesting its message -/
   | finish (i : Nat)
+  /-- worker `i`'s message does not parse (malformed bytes from the socket, unknown generation, …):
+      `startIngestThread` logs the error and `continue`s with its loop -/
+  | bad (i : Nat)
 deriving Repr
 
 def idleWorker (ws : List Worker) : Option Nat := ws.findIdx? (· == .idle)
@@ -75,6 +79,10 @@ def step (s : St) : Act → St
   | .finish i =>
     match s.workers[i]? with
     | some .busy => { s with workers := s.workers.set i .idle, processed := s.processed + 1 }
+    | _ => s
+  | .bad i =>
+    match s.workers[i]? with
+    | some .busy => { s with workers := s.workers.set i .idle, rejected := s.rejected + 1 }
     | _ => s
 
 def run (s : St) (acts : List Act) : St := acts.foldl step s
